@@ -1,7 +1,158 @@
 import Mutagen.Driver.Util
+import Mutagen.Model.Staging
 namespace Mutagen.Driver.C41
+open Mutagen.Driver Mutagen.Model.Staging
 
-/-- Model-side handler for one line of the C41 correspondence stream. -/
-def handle (_line : String) : String := "unimplemented"
+/-!
+Line: `m=<max> ro=<0|1> root=<listing> <op> …`
+
+* listing: `-` or `+`-joined `<path>=d` / `<path>=f<k>` (parents first);
+* `sc` — Scan;
+* `x:<edit>+…` — external edits `w=<path>=<k>`, `d=<path>`, `r=<path>`;
+* `st:<req>:<supply>:<picks>` (`st!` passes one digest less) — Stage; req is
+  `-` or `+`-joined `<path>=<k>`; supply is `n` (receiver abandoned) or a
+  `+`-joined list, aligned with the request, of the content (`<k>`, or `x` for
+  none) the peer transmits for that path if it is asked for; picks is `-` or
+  `+`-joined `<k>@<path>`: which cached path the reverse lookup map holds for
+  a digest with several candidates;
+* `tr:<t>;…` (or `tr:-`) — Transition; `t` is `<path>|<old>|<new>`, entries
+  are `-` or `+`-joined `<rel>=d` / `<rel>=f<k>` with `.` first.
+
+Output: one token per op.
+-/
+
+def parseNode (s : String) : Option Tree :=
+  if s == "d" then some (.dir [])
+  else match s.toList with
+    | 'f' :: ds => (String.ofList ds).toNat?.map Tree.file
+    | _ => none
+
+def parseListing (s : String) : Option Children :=
+  if s == "-" then some [] else
+  (s.splitOn "+").foldlM (init := ([] : Children)) fun acc item =>
+    match item.splitOn "=" with
+    | [p, k] => do pure (insertAt (← parseNode k) acc (splitPath p))
+    | _ => none
+
+def parseEntry (s : String) : Option (Option Tree) :=
+  if s == "-" then some none else
+  match s.splitOn "+" with
+  | first :: rest =>
+    match first.splitOn "=" with
+    | [".", k] => do
+      let top ← parseNode k
+      match top with
+      | .file _ => if rest.isEmpty then pure (some top) else none
+      | .dir _ =>
+        let cs ← rest.foldlM (init := ([] : Children)) fun acc item =>
+          match item.splitOn "=" with
+          | [p, k] => do pure (insertAt (← parseNode k) acc (splitPath p))
+          | _ => none
+        pure (some (.dir cs))
+    | _ => none
+  | [] => none
+
+def parseEdit (s : String) : Option Edit :=
+  match s.splitOn "=" with
+  | ["w", p, k] => k.toNat?.map (Edit.write p)
+  | ["d", p] => some (.mkdir p)
+  | ["r", p] => some (.remove p)
+  | _ => none
+
+def parseReq (s : String) : Option (List (String × Nat)) :=
+  if s == "-" then some [] else
+  (s.splitOn "+").mapM fun item =>
+    match item.splitOn "=" with
+    | [p, k] => k.toNat?.map fun k => (p, k)
+    | _ => none
+
+def parseSupply (s : String) : Option (Option (List (Option Nat))) :=
+  if s == "n" then some none else
+  ((s.splitOn "+").mapM fun item =>
+    if item == "x" then some none else item.toNat?.map some).map some
+
+def parsePicks (s : String) : Option (List (Nat × String)) :=
+  if s == "-" then some [] else
+  (s.splitOn "+").mapM fun item =>
+    match item.splitOn "@" with
+    | [k, p] => k.toNat?.map fun k => (k, p)
+    | _ => none
+
+def parseChange (s : String) : Option Change :=
+  match s.splitOn "|" with
+  | [p, o, n] => do pure { path := p, old := ← parseEntry o, new := ← parseEntry n }
+  | _ => none
+
+def showStageErr : StageErr → String
+  | .readOnly => "ro" | .lengths => "len" | .noScan => "noscan" | .exceed => "exceed"
+
+def showTransErr : TransErr → String
+  | .readOnly => "ro" | .noScan => "noscan" | .underflow => "underflow"
+
+def joinOr (l : List String) : String := if l.isEmpty then "-" else "+".intercalate l
+
+def classOf (t : Change) (r : Option Tree) : String :=
+  if oeq r t.new then "1" else if oeq r t.old then "0" else "p"
+
+def stepOp (s : St) (op : String) : Option (St × String) :=
+  match op.splitOn ":" with
+  | ["sc"] =>
+    let (s', o) := scan s
+    some (s', match o with | .ok n => s!"sc:ok:{n}" | .exceeded => "sc:exceeded")
+  | ["x", edits] => do
+    let es ← (edits.splitOn "+").mapM parseEdit
+    pure ({ s with root := es.foldl applyEdit s.root }, "x")
+  | [name, req, sup, picks] =>
+    if name != "st" && name != "st!" then none else do
+    let req ← parseReq req
+    let sup ← parseSupply sup
+    let picks ← parsePicks picks
+    let paths := req.map (·.1)
+    let digests := if name == "st!" then (req.map (·.2)).dropLast else req.map (·.2)
+    let hint := fun k => (picks.find? fun e => e.1 == k).map (·.2)
+    let (s', o) := stage s paths digests hint
+    match o with
+    | .err e => pure (s', s!"st:err:{showStageErr e}")
+    | .ok filtered =>
+      -- the peer transmits what the supply script says for every path asked for
+      let s'' := match sup with
+        | none => s'
+        | some l =>
+          supply s' ((req.zip l).filterMap fun ((p, _), c) =>
+            match c with
+            | some k => if filtered.contains p then some (p, k) else none
+            | none => none)
+      pure (s'', s!"st:ok:{joinOr filtered}")
+  | ["tr", ts] => do
+    let ts ← if ts == "-" then some [] else (ts.splitOn ";").mapM parseChange
+    let (s', o) := transition s ts
+    match o with
+    | .err e => pure (s', s!"tr:err:{showTransErr e}")
+    | .refused _ => pure (s', "tr:refused")
+    | .ok rs m =>
+      let cls := (ts.zip rs).map fun (t, r) => classOf t r
+      pure (s', s!"tr:ok:{if cls.isEmpty then "-" else String.join cls}:m{if m then 1 else 0}:{rootCount s'.root}")
+  | _ => none
+
+def run (s : St) : List String → List String → Option (List String)
+  | [], acc => some acc.reverse
+  | op :: ops, acc => do
+    let (s', out) ← stepOp s op
+    run s' ops (out :: acc)
+
+def field (pre : String) (s : String) : Option String :=
+  if s.startsWith pre then some (s.drop pre.length).toString else none
+
+def handle (line : String) : String :=
+  match fields line with
+  | m :: ro :: root :: ops =>
+    match (do
+      let m ← (← field "m=" m).toNat?
+      let ro ← field "ro=" ro
+      let root ← parseListing (← field "root=" root)
+      run (init m (ro == "1") root) ops []) with
+    | some outs => " ".intercalate outs
+    | none => "bad-op"
+  | _ => "bad-op"
 
 end Mutagen.Driver.C41
